@@ -206,3 +206,10 @@ def drop_evens_live(xs):
         if x % 2 == 0:
             xs.remove(x)
     return xs
+
+
+def every_third(lo, n):
+    out = []
+    for k in range(lo, n, 3):
+        out.append(k)
+    return out
